@@ -57,7 +57,15 @@ func ParseProgram(fsys fs.FS) (*ast.Tree, error) {
 			if last == 0 {
 				return nil, errors.New("cannot find main package")
 			}
-			path := imports[last-1].Tree.Path
+			// The importer is the nearest parsed entry below n: the entries
+			// between them are imports of the same package still to be parsed.
+			var path string
+			for i := last - 1; i >= 0; i-- {
+				if tree := imports[i].Tree; tree != nil {
+					path = tree.Path
+					break
+				}
+			}
 			return nil, &SyntaxError{path, *n.Position, fmt.Sprintf("cannot find package %q", n.Path)}
 		}
 		trees[n.Path] = n.Tree
